@@ -58,6 +58,7 @@ type runOpts struct {
 	verbose                       bool
 	jobs                          int
 	noReplay                      bool
+	overlay                       string
 }
 
 func cmdRun(args []string) int {
@@ -73,9 +74,16 @@ func cmdRun(args []string) int {
 	fs.BoolVar(&o.verbose, "v", false, "verbose")
 	fs.BoolVar(&o.noReplay, "noreplay", false, "skip replay")
 	fs.IntVar(&o.jobs, "jobs", 12, "parallel solver jobs")
+	fs.StringVar(&o.overlay, "overlay", "", "extra build overlay (JSON, go build format): used by the self-test to mutate sources in memory")
 	fs.Parse(args)
 	t0 := time.Now()
 	eng := newEngine(o.repo)
+	if o.overlay != "" {
+		if err := eng.readExtraOverlay(o.overlay); err != nil {
+			fmt.Fprintln(os.Stderr, "overlay:", err)
+			return 2
+		}
+	}
 	mirror := filepath.Join(o.verif, "contracts_mirror")
 	specs, err := readContracts(o.repo, mirror)
 	if err != nil {
